@@ -13,7 +13,7 @@
       [ack_ranges_ok]           descending, Smallest <= Largest, disjoint and non-adjacent
       [pending tr]              receive time of the first accepted, still unacknowledged ack-eliciting app-data packet *)
 From Coq Require Import List ZArith Bool.
-From V Require Import Gen.Params RecvPH.Model RecvPH.ProofsHist RecvPH.ProofsAck RecvPH.ProofsDue RecvPH.ProofsDup RecvPH.ProofsMissing RecvPH.ProofsNonempty RecvPH.ProofsGap RecvPH.ProofsImmediate.
+From V Require Import Gen.Params RecvPH.Model RecvPH.ProofsHist RecvPH.ProofsAck RecvPH.ProofsDue RecvPH.ProofsDup RecvPH.ProofsMissing RecvPH.ProofsNonempty RecvPH.ProofsGap RecvPH.ProofsImmediate RecvPH.ProofsDupTrace.
 Import ListNotations.
 Open Scope Z_scope.
 
@@ -163,6 +163,44 @@ Theorem C07_ack_covers_flagged : forall (ops : list op) lvl now only f,
     forall q, is_dup x q = true -> deletedBelow x <= q -> inR q (aRanges f).
 Proof. exact ack_covers_flagged. Qed.
 Print Assumptions C07_ack_covers_flagged.
+
+(** (c) over whole handler histories. [runW] is [run] (lemma runW_fst) instrumented with one
+    watermark per space: the highest number an accepted packet pushed out of that space's history
+    through the MaxNumAckRanges limit. Every number accepted in a space is flagged by
+    IsPotentiallyDuplicate and refused by ReceivedPacket for as long as the space exists, unless it
+    is at or below that watermark — across IgnorePacketsBelow, DropPackets of other spaces, ACK
+    retrievals, Truncate and further receptions. *)
+Theorem C07_duplicate_detected_handler : forall (ops : list op) sp q x,
+  let hw := runW newHandler (fun _ => None) ops in
+  accepted (trace newHandler ops) sp q ->
+  hist_of (fst hw) sp = Some x ->
+  ~ le_opt q (snd hw sp) ->
+  is_dup x q = true /\ snd (hist_recv x q) = false.
+Proof. exact handler_duplicate_detected. Qed.
+Print Assumptions C07_duplicate_detected_handler.
+
+Theorem C07_runW_is_run : forall (ops : list op) h W, fst (runW h W ops) = fst (run h ops).
+Proof. exact runW_fst. Qed.
+Print Assumptions C07_runW_is_run.
+
+(** The watermark of a space only moves in a call made while that space tracks MaxNumAckRanges ranges. *)
+Theorem C07_watermark_only_at_limit : forall h W o sp x,
+  hist_of h sp = Some x -> hist_ok x -> Z.of_nat (length (ranges x)) < rph_MaxNumAckRanges ->
+  wstep h W o sp = W sp.
+Proof. exact wstep_unchanged. Qed.
+Print Assumptions C07_watermark_only_at_limit.
+
+Example C07_example_duplicate_handler :
+  let ops := [Recv 5 1 rph_Enc1RTT 1000 true; Ignore 3; Drop rph_EncInitial; Recv 7 1 rph_Enc1RTT 2000 false;
+              GetAck rph_Enc1RTT 3000 false; Trunc rph_Enc1RTT 1] in
+  let hw := runW newHandler (fun _ => None) ops in
+  accepted (trace newHandler ops) 2 5 /\ snd hw 2%nat = None /\
+  h_is_dup (fst hw) 5 rph_Enc1RTT = RB true.
+Proof.
+  cbv zeta. split; [| split]; try (vm_compute; reflexivity).
+  exists 1, rph_Enc1RTT, 1000, true. split; [vm_compute; tauto | reflexivity].
+Qed.
+Print Assumptions C07_example_duplicate_handler.
 
 (** REFUTED reading of (c) (DESIGN.md: "p >= Start of the lowest tracked range"): after the limit
     has dropped a range, a later lower packet opens a new lowest range below a forgotten number. *)
